@@ -223,6 +223,8 @@ def _worker(spec):
     module, func, kwargs = spec
     env.quiet_torch()
     env.enter_scratch()
+    # leaspy prints progress lines; only the parent talks on stdout (VIOLATION / KNOWN-FINDING / OK lines)
+    sys.stdout = open(os.devnull, "w")
     t0 = time.time()
     try:
         mod = importlib.import_module(module)
